@@ -711,7 +711,7 @@ def run(ctx):
     _jax()
     rng = ctx.rng
     cases = _corpus()
-    for _ in range(ctx.n(160, 1500)):
+    for _ in range(ctx.n(120, 1500)):
         cases.append(gen_binop(rng))
     for _ in range(ctx.n(40, 250)):
         cases.append(dict(op="unary", f=rng.choice(list(UNOPS)), x=gen_tree(rng, rng.choice([1, 2, 3]))))
@@ -723,7 +723,7 @@ def run(ctx):
         cases.append(dict(op="vdot", a=a, b=b, how=rng.randrange(3)))
     for _ in range(ctx.n(40, 250)):
         cases.append(gen_where(rng))
-    for _ in range(ctx.n(40, 300)):
+    for _ in range(ctx.n(30, 300)):
         cases.append(gen_smap(rng))
     for _ in range(ctx.n(25, 200)):
         a = gen_tree(rng, rng.choice([1, 2, 3]), -5, 5)
